@@ -74,8 +74,16 @@ func main() {
 			rep.Analysed.Blocks += len(fn.Blocks)
 			rep.Analysed.CallSites += len(callSites(fn, false))
 		}
+		// pass 1 (discovery): run the rules once to learn which functions they anchor on;
+		// pass 2: with every other single-call-site private helper spliced into its caller.
+		inlineOn = false
+		computeHelpers(c)
+		f(&P{c: c, r: NewReport(*prop, *tier)})
+		inlineOn = os.Getenv("F3LINT_NOINLINE") == ""
+		computeHelpers(c)
 		p := &P{c: c, r: rep}
 		f(p)
+		rep.Notes = append(rep.Notes, fmt.Sprintf("virtual inlining: %d private helpers spliced into their callers program-wide; %d function names anchored by rules (never inlined)", len(helperSite), len(mentioned)))
 		if *noEvidence {
 			return childFinish(rep)
 		}
